@@ -139,8 +139,18 @@ pub fn run<W: Write>(opts: &Opts, out: &mut W) {
                 }
                 let mdat = bx(b"mdat", &r.bytes(5), Enc::S32);
                 let mut parts = vec![ftyp];
-                let order = r.below(4);
+                let order = r.below(6);
+                let mut gap_sizes: Vec<u64> = vec![];
                 match order {
+                    4 | 5 => {
+                        // skippable boxes before the media: the rewritten metadata is padded or the offsets displaced; the
+                        // limit must not influence that decision (sizes around the gap join the lattice below)
+                        let g = if order == 4 { r.below(40) } else { r.below(3 * moovs[0].len() as u64 + 40) };
+                        parts.push(bx(if r.chance(1, 2) { b"free" } else { b"skip" }, &vec![0; g as usize], Enc::S32));
+                        parts.push(mdat);
+                        for m in &moovs { parts.push(bx(b"moov", m, Enc::S32)); }
+                        gap_sizes.extend_from_slice(&[g, g + 8, g.saturating_sub(8)]);
+                    }
                     0 => { parts.push(mdat); for m in &moovs { parts.push(bx(b"moov", m, Enc::S32)); } }
                     1 => { for m in &moovs { parts.push(bx(b"moov", m, Enc::S32)); } parts.push(mdat); }
                     2 => { parts.push(bx(b"moov", &moovs[0], Enc::S32)); parts.push(mdat); for m in &moovs[1..] { parts.push(bx(b"moov", m, Enc::S64)); } }
@@ -153,7 +163,8 @@ pub fn run<W: Write>(opts: &Opts, out: &mut W) {
                     2 => bytes.extend(bx(b"abcd", &[1], Enc::S32)),
                     _ => {}
                 }
-                let sizes: Vec<u64> = moovs.iter().map(|m| m.len() as u64).collect();
+                let mut sizes: Vec<u64> = moovs.iter().map(|m| m.len() as u64).collect();
+                sizes.extend(gap_sizes);
                 emit_limit(out, &format!("limit-{i}"), &Sparse::from_bytes(&bytes), &sizes, kind);
             }
             1 => {
